@@ -109,6 +109,29 @@ pub fn run(ctx: &mut Ctx) {
                 }
             }
         }
+        // the full statement against the model: legs' cost + closing cost − purchases must be exactly
+        // the model's `effAll` (signed amounts of the events that found shares held in the pre-pass),
+        // and the purchases' cost the model's `purchasesOf` — splits or not
+        if let (Ok(out), Some(m)) = (&imp, ctx.model.as_mut()) {
+            let resp = m.ask(&format!("eff {}", ledger::wire(&l)));
+            match resp.strip_prefix("ok") {
+                None => ctx.ev.violation("correspondence", format!("driver eff: {resp}"), replay_text(prop, "correspondence", &resp, &l, &[])),
+                Some(body) => for part in body.split(' ').filter(|x| !x.is_empty()) {
+                    let f: Vec<&str> = part.split(':').collect();
+                    if f.len() != 3 { continue; }
+                    let (tk, pm, em) = (f[0], Q::parse(f[1]), Q::parse(f[2]));
+                    let (Some(pm), Some(em)) = (pm, em) else { continue };
+                    ctx.ev.count("eff-comparisons");
+                    if !em.is_zero() { ctx.ev.count("eff-comparisons:nonzero"); }
+                    let bought = Q::sum(l.iter().filter(|t| t.ticker == tk && t.kind == Kind::Buy).map(|t| Q::from_dec(t.a).mul(&Q::from_dec(t.b)).add(&Q::from_dec(t.c))).collect::<Vec<_>>().iter());
+                    if !bought.close(&pm, 12) { ctx.ev.violation("correspondence", format!("{tk}: purchases' cost {} vs model purchasesOf {}", bought.approx(), pm.approx()), replay_text(prop, "correspondence (purchases)", tk, &l, &[format!("case {name}")])); }
+                    let diff = imbalance(&l, out, tk);
+                    if !diff.close(&em, 12) {
+                        ctx.ev.violation("correspondence", format!("{tk}: legs' cost + closing cost − purchases = {} but the events that took effect (model effAll) sum to {}", diff.approx(), em.approx()), replay_text(prop, "correspondence (C03_ledger_full: implementation's imbalance vs Lean effAll)", tk, &l, &[format!("case {name}")]));
+                    }
+                }
+            }
+        }
         if ctx.ev.samples.len() < 3 && imp.is_ok() && has_cost_events(&l) {
             ctx.ev.sample(json!({"case": name, "ledger": ledger::dsl(&l).lines().collect::<Vec<_>>()}));
         }
